@@ -1052,6 +1052,25 @@ def big_plain_packet(rng, size):
     return b
 
 
+def big_compressed_packet(rng, usize):
+    """A compressed response whose pointer-free form has exactly `usize` bytes while the wire form is several times smaller
+    (owner names are pointers to a long question name): inserting into it must be judged on the uncompressed length."""
+    q = [bytes(rng.randint(97, 122) for _ in range(rng.randint(20, 30))) for _ in range(3)]
+    ql = sum(len(l) + 1 for l in q) + 1
+    recs = []
+    n = 12 + ql + 4
+    while n + ql + 14 + ql + 12 <= usize:
+        recs.append(G.RR(q, 1, 1, 5, ("raw", bytes(rng.getrandbits(8) for _ in range(4)))))
+        n += ql + 14
+    pad = usize - n - (ql + 10)
+    if pad < 1:
+        return None
+    pad = min(pad, 256)
+    recs.append(G.RR(q, 16, 1, 5, ("raw", bytes([pad - 1]) + bytes(rng.randint(97, 122) for _ in range(pad - 1)))))
+    b, _ = G.encode(rng, G.Msg(5, 0x8180, q, 1, 1, an=recs), "greedy")
+    return b
+
+
 class HistProp(Prop):
     """Shared machinery of C08-C11: histories with an abstract message model (gen/hist.py)."""
     clauses = set()
@@ -1373,7 +1392,7 @@ class C10(HistProp):
     clauses = {"err", "size"}
     rule = ("error-provoking histories: second question, malformed record text (field-wise damaged), invalid / over-long / pointer-bearing "
             "names given to set_raw_name, operations on a deleted record's cursor, renames that overflow 255 bytes, inserts into packets of "
-            "8100-9500 bytes and >65535 bytes (quick: up to 9500), at any point of a history; after every failing call the decoded message "
+            "8100-9500 bytes and >65535 bytes (quick: up to 9500) and into compressed packets of 1-2 KB whose pointer-free form has 7900-9000 bytes, at any point of a history; after every failing call the decoded message "
             "must equal the one before the call and the object must still match a fresh parse; no successful insert may exceed 8192 bytes. "
             "Non-trivial: history contains a failing call; distinct = distinct history.")
     strength = ("PARTIAL: proved: C10_insert_bound (a successful insert never yields more than 8192 bytes, whatever the starting length, and "
@@ -1399,6 +1418,17 @@ class C10(HistProp):
                     continue
                 bld = H.Builder(rng, a, set())
                 for _ in range(3):
+                    bld.insert_op()
+                cases.append(self.finish(k, "P," + hx(b), bld, "size-limit"))
+                k += 1
+        for usz in ([8000, 8100, 8150, 8180, 8192, 8300] if tier == "quick" else [7900, 8000, 8100, 8150, 8170, 8180, 8185, 8190, 8192, 8200, 8300, 9000]):
+            for rep in range(3 if tier == "quick" else 8):
+                b = big_compressed_packet(rng, usz)
+                a = H.decode_bytes(b) if b else None
+                if a is None:
+                    continue
+                bld = H.Builder(rng, a, set())
+                for _ in range(2):
                     bld.insert_op()
                 cases.append(self.finish(k, "P," + hx(b), bld, "size-limit"))
                 k += 1
@@ -1532,6 +1562,20 @@ def plain_messages(rng, n, tier):
         recs = big + [A([b"far", b"away", b"org"], 1), A([b"x", b"far", b"away", b"org"], 2), A(q, 3)]
         b, _ = G.encode(rng, G.Msg(1, 0x8180, q, 1, 1, an=recs), "none")
         out.append(("beyond-16383", b))
+    # a new suffix first emitted at output offset exactly T, T around the 14-bit pointer limit, then reused: whole name and inner label
+    for T in (range(16381, 16389) if tier == "quick" else range(16370, 16400)):
+        for inner in (0, 4):
+            R = T - inner - 29
+            fill = []
+            while R >= 2 * 268:
+                fill.append(256)
+                R -= 268
+            r1 = (R - 24) // 2
+            fill += [r1, R - 24 - r1]
+            big = [G.RR(q, 16, 1, 5, ("raw", bytes([r - 1]) + bytes(rng.randint(97, 122) for _ in range(r - 1)))) for r in fill]
+            recs = big + [A([b"far", b"away", b"org"], 1), A([b"x", b"far", b"away", b"org"], 2), A([b"y", b"away", b"org"], 3), A([b"far", b"away", b"org"], 4), A(q, 5)]
+            b, _ = G.encode(rng, G.Msg(1, 0x8180, q, 1, 1, an=recs), "none")
+            out.append(("pointer-limit-%d-%d" % (T, inner), b))
     return [(f, b) for (f, b) in out if decode_or_none(b) is not None]
 
 
@@ -1547,7 +1591,7 @@ class C06(Prop):
     id = "C06"
     rule = ("CU: Compress::compress then Compress::uncompress of the result, on accepted pointer-free packets: random messages; nested "
             "suffixes of depth 2..30; 31..70 distinct suffixes (table wrap, pinned first entry); suffixes of 120..200 bytes; mixed-case "
-            "duplicates; NS/CNAME/PTR/MX/SOA/DNAME data; OPT in every position; names beyond offset 16383 (thorough). Oracle: output accepted, "
+            "duplicates; NS/CNAME/PTR/MX/SOA/DNAME data; OPT in every position; a new suffix (whole name or inner label) first emitted at every output offset 16381..16388 (thorough: 16370..16399) and reused afterwards; names beyond offset 16383. Oracle: output accepted, "
             "not longer than the input, same header / record sequence / contents with names equal up to ASCII case and the question name "
             "byte-identical, decompression gives back the input up to name case. Non-trivial: output shorter than input; distinct = "
             "distinct packet.")
